@@ -196,6 +196,8 @@ def run(ctx):
     rule_tempo_methods(ctx)
     rule_order(ctx)
     rule_rowrank(ctx)
+    from ..rules import extra as X
+    X.rule_comask(ctx)
     ctx.rule("F8b", "no int()/float() of a value that is definitely a rank>=1 array")
     fs = ctx.prog.functions_in(PC)
     for f in fs:
